@@ -7,6 +7,44 @@ import gen_mixed, gen_kv
 INPLACE = {"SADD", "SREM", "SPOP", "SMOVE", "ZADD", "ZINCRBY", "ZREM", "ZPOPMIN", "ZPOPMAX", "ZMPOP",
            "ZREMRANGEBYSCORE", "ZREMRANGEBYRANK", "ZREMRANGEBYLEX"}
 
+def fresh_collections(rng, sid):
+    """sets and sorted sets created by one command each on keys nothing has named before (members named twice, several
+    pairs, equal members with different scores), then read, copied by the STORE forms, renamed, given deadlines, overwritten,
+    deleted, flushed — never changed in place (the recorded finding), so the figure is judged at every digest"""
+    s = Script(sid, {})
+    ms = ["m", "n", "red-member", "", "m"]
+    fresh = ["c%d" % i for i in range(12)]
+    rng.shuffle(fresh)
+    made = []
+    for _ in range(rng.randint(3, 10)):
+        r = rng.random()
+        db = 0
+        if r < 0.3 and fresh:
+            k = fresh.pop(); made.append(k)
+            s.cmd(db, "SADD", k, *[rng.choice(ms) for _ in range(rng.randint(1, 5))])
+        elif r < 0.5 and fresh:
+            k = fresh.pop(); made.append(k)
+            argv = ["ZADD", k]
+            for _ in range(rng.randint(1, 4)): argv += [rng.choice(["1", "2", "-1", "1.5"]), rng.choice(ms)]
+            s.cmd(db, *argv)
+        elif r < 0.6 and made and fresh:
+            d = fresh.pop(); made.append(d)
+            s.cmd(db, rng.choice(["SUNIONSTORE", "SDIFFSTORE", "SINTERSTORE"]), d, rng.choice(made), rng.choice(made))
+        elif r < 0.68 and made and fresh:
+            d = fresh.pop(); made.append(d)
+            s.cmd(db, rng.choice(["ZUNIONSTORE", "ZINTERSTORE"]), d, "2", rng.choice(made), rng.choice(made))
+        elif r < 0.76 and made: s.cmd(db, "DEL", rng.choice(made))
+        elif r < 0.82 and made and fresh:
+            d = fresh.pop(); src = rng.choice(made); made.append(d)
+            s.cmd(db, "RENAME", src, d)
+        elif r < 0.88 and made: s.cmd(db, "SET", rng.choice(made), rng.choice(["v", "12"]))
+        elif r < 0.93 and made: s.cmd(db, "EXPIRE", rng.choice(made), "100")
+        elif r < 0.96: s.cmd(db, "FLUSHDB")
+        elif made: s.cmd(db, rng.choice(["SMEMBERS", "SCARD", "ZCARD", "TYPE"]), rng.choice(made))
+        if rng.random() < 0.4: s.digest()
+    s.digest()
+    return s
+
 class C19(PropertyCheck):
     prop = "C19"
     theorem_file = "Properties/C19.v"
@@ -22,6 +60,7 @@ class C19(PropertyCheck):
             "histories": [gen_mixed.script(rng, "h%d" % i, 30, inplace_ok=False, dbs=(0, 1, 2), conns=(0, 1, 2)) for i in range(n)],
             "malformed": [gen_mixed.script(rng, "m%d" % i, 12, inplace_ok=False, malformed=True) for i in range(n // 4)],
             "inplace": [gen_mixed.script(rng, "p%d" % i, 20, inplace_ok=True) for i in range(n // 5)],
+            "fresh_collections": [fresh_collections(rng, "f%d" % i) for i in range(n // 5)],
         }
 
     def rule(self):
@@ -32,10 +71,23 @@ class C19(PropertyCheck):
                 "non-trivial = at least one successful write and a non-empty final dataset")
 
     def in_known_trigger(self, script):
-        seen_coll = False
+        """the recorded finding is the mutation of an EXISTING set / sorted set through the stored pointer: a script is in its
+        trigger class when one of those commands names a key that an earlier event of the script may have created (any
+        database — conservative).  SADD / ZADD on a key no earlier event names creates it through SetValues: judged fully."""
+        touched = set()
         for e in script.events:
-            if e[0] == "cmd" and str(e[2]).upper() in INPLACE:
-                return "KF-C19-inplace"
+            if e[0] == "preset":
+                touched.add(str(e[2])); continue
+            if e[0] != "cmd":
+                continue
+            name, args = str(e[2]).upper(), [str(a) for a in e[3:]]
+            if name in INPLACE:
+                if name == "SMOVE": targets = args[:2]
+                elif name == "ZMPOP": targets = args[1:]
+                else: targets = args[:1]
+                if any(t in touched for t in targets):
+                    return "KF-C19-inplace"
+            touched.update(args)
         return None
 
     def nontrivial(self, script, impl_lines):
